@@ -28,7 +28,7 @@ Proof. exact write_then_read. Qed.
    presentation width *)
 Theorem C04_int_roundtrip_partial : forall k w z nullable,
   in_int k z = true ->
-  exists b', push (VInt w z) (BdPrim k (new_validity nullable) []) = Ok b' /\
+  exists b', push (VInt w z) (BdPrim (PInt k) (new_validity nullable) []) = Ok b' /\
              read (into_array b') 0 = Ok (RInt z).
 Proof.
   intros k w z nullable Hin. cbn [push prim_value]. rewrite Hin. cbn [bind].
@@ -40,7 +40,7 @@ Qed.
 
 (* a null written to a nullable integer column reads back as None *)
 Theorem C04_null_roundtrip_partial : forall k,
-  exists b', push VNone (BdPrim k (new_validity true) []) = Ok b' /\ read (into_array b') 0 = Ok RNone.
+  exists b', push VNone (BdPrim (PInt k) (new_validity true) []) = Ok b' /\ read (into_array b') 0 = Ok RNone.
 Proof. intros k. eexists. split; [reflexivity|]. cbn. reflexivity. Qed.
 
 (* Boolean and string columns *)
